@@ -743,14 +743,41 @@ func c05SimLifecycle(src, scope, action string) string {
 			rerr = ip.ProcessLog()
 		}
 	}()
-	if rerr == nil {
+	// (the state's name is not always rendered: "returned unexpected state  in FETCH")
+	suffix := " in " + strings.ToUpper(scope)
+	find := func(err error) string {
+		if err == nil {
+			return ""
+		}
+		for _, l := range strings.Split(err.Error(), "\n") {
+			if i := strings.Index(l, "returned unexpected state "); i >= 0 && strings.Contains(l[i:], suffix) {
+				return l
+			}
+		}
 		return ""
 	}
-	want := fmt.Sprintf("returned unexpected state %s in %s", action, strings.ToUpper(scope))
-	for _, l := range strings.Split(rerr.Error(), "\n") {
-		if strings.Contains(l, want) {
-			return l
+	_ = action
+	if l := find(rerr); l != "" {
+		return l
+	}
+	// the scopes a fresh simulator reaches on its own (lookup -> miss -> fetch -> deliver -> log) are also
+	// driven through a whole request: one step in isolation may stop before the dispatch (no backend response)
+	switch scope {
+	case "miss", "fetch", "deliver", "log":
+		ip2, _, err := newTestInterp(src)
+		if err != nil {
+			return ""
 		}
+		var werr error
+		func() {
+			defer func() {
+				if r := recover(); r != nil {
+					werr = nil // crashes are C08's business
+				}
+			}()
+			werr = ip2.ProcessRecv()
+		}()
+		return find(werr)
 	}
 	return ""
 }
